@@ -6,6 +6,7 @@ import (
 	"fmt"
 	"math/rand"
 	"reflect"
+	"strings"
 
 	"github.com/evolbioinfo/goalign/align"
 )
@@ -169,6 +170,56 @@ func c10(args []string) error {
 		w.add(term, map[string]interface{}{"op": opname, "opterm": opterm, "alphabet": alpha, "names": names, "seqs": seqs, "rand_seed": seed,
 			"class": r1.class, "out_names": r1.outN, "out_seqs": r1.outS, "names1": r1.names1, "names2": r1.names2, "replay_identical": replay})
 		stats[opname+":"+r1.class]++
+	}
+	// reachability: outcomes observed over 96 seeds
+	for i := 0; i < g.n/25+3; i++ {
+		what := i % 3
+		nseq := 3
+		if what == 2 {
+			nseq = 2 + r.Intn(3)
+		}
+		L := 2 + r.Intn(5)
+		letters := []byte("ACGTRYKM")
+		r.Shuffle(len(letters), func(a, b int) { letters[a], letters[b] = letters[b], letters[a] })
+		names := distinctNames(r, nseq)
+		for _, n := range names {
+			if strings.Contains(n, "|") {
+				names = []string{"a", "b", "c", "d", "e"}[:nseq]
+			}
+		}
+		seqs := make([]string, nseq)
+		for k := range seqs {
+			seqs[k] = string(letters[:L])
+		}
+		ln := 1 + r.Intn(L)
+		obs := []string{}
+		for s := 0; s < 96; s++ {
+			a, e := mkAlign(align.NUCLEOTIDS, names, seqs)
+			if e != nil {
+				break
+			}
+			rand.Seed(r.Int63())
+			switch what {
+			case 0:
+				if sub, e := a.RandSubAlign(ln, true); e == nil {
+					_, ss := alignContent(sub)
+					obs = append(obs, ss[0])
+				}
+			case 1:
+				a.ShuffleSequences()
+				nn, _ := alignContent(a)
+				obs = append(obs, strings.Join(nn, "|"))
+			default:
+				if sub, e := a.Sample(1); e == nil {
+					nn, _ := alignContent(sub)
+					obs = append(obs, nn[0])
+				}
+			}
+		}
+		opname := []string{"support:RandSubAlign", "support:ShuffleSequences", "support:Sample"}[what]
+		term := fmt.Sprintf("mk %s %s []%%Z (OpSupport %d %d) false [] %s [] true", coqZ(align.NUCLEOTIDS), coqRows(names, seqs), what, ln, coqStrList(obs))
+		w.add(term, map[string]interface{}{"op": opname, "names": names, "seqs": seqs, "len": ln, "observed": obs})
+		stats[opname]++
 	}
 	if g.only >= 0 {
 		w.terms = w.terms[g.only : g.only+1]
